@@ -1,4 +1,73 @@
-"""C01 — use-def and ownership links stay consistent under every edit history.  (see DECISIONS at the bottom)"""
+r"""C01 — use-def and ownership links stay consistent under every edit history.
+
+Decided by: Coq theorems (coq/theories/C01/Property.v) about the executable heap model coq/theories/C01/Model.v
+(shared with C06), tied to /repo on every run by a correspondence check: seeded op histories are executed on the
+real onnx_ir objects (harness/props/_core_ops.py) and, inside Coq, on the model; outcome (Ok / exception type) and a
+hash of the canonical observation of EVERY allocated object are compared after EVERY op (C01/Tie.v).  oracle_c01
+recomputes I1..I7 from public accessors after every prefix.
+
+MODEL.  Heap split by relationship: io_st (inputs<->uses), po_st (outputs<->producer/index), ng_st (node.graph<->node
+sequence), ow_st (name/owner/flags <-> graph inputs/outputs/initializers + ref counters), nm_st (node names, name
+authority, counters).  step : cfg -> heap -> op -> heap * res unit; the heap returned with Raise is the partially
+mutated state the Python code leaves behind.  cfg : site -> bool says for each of the 11 defect sites whether its
+repair is applied; `current_cfg` (bottom of Model.v) is THE definition to edit when a fix lands (all false today);
+beside every site the repaired behaviour is the `c S... = true` branch.
+
+THEOREMS (all closed under the global context):
+  C01_inv_init
+  C01_uses_reachable               forall c ops, I1 (run c ops empty)      -- FULL: every cfg, whole alphabet, rejected calls
+  C01_step_preserves_inv           per-op preservation of Inv = I1 /\ I3 /\ (I4 I5 I6 I7), repaired model
+  C01_inv_reachable_fixed_partial  forall ops in scope, InvP (run all_fixed ops empty)
+  C01_inv_reachable_partial        forall ops in scope, clean current_cfg ops -> InvP (run current_cfg ops empty)
+                                   (`clean` = the history never takes a branch on which the current code differs from the
+                                   repaired code, i.e. avoids exactly the known sites; Example demo_clean shows non-vacuity
+                                   with a value that is input + output twice + initializer, 3 graphs, 3 rejected calls)
+  C01_<site>_refuted x10           vm_compute witnesses at SIODelItem SIOIMul SIOExtend SIOInsert SIOSetItem SInitSetItem
+                                   SGExtend SGInsert SNodeOutputs SGraphNew, each replayed on the implementation
+                                   (known_findings.d/C01.json)
+  C01_outputs_reachable_fixed      forall ops, I2 (run all_fixed ops empty)  -- I2 = outputs <-> producer/index, whole alphabet
+  C01_outputs_reachable            forall ops, clean current_cfg ops -> I2 (run current_cfg ops empty)
+  C01_nodeoutputs_dup_refuted      Node(outputs=[x, x]) breaks I2
+PARTIAL, what is missing: (1) for I3..I7 `in_scope` excludes Graph(...) called WITH arguments (the constructor with
+empty collections followed by the tracked mutators is in scope; I1 and I2 are proved without that restriction);
+(2) no general boolean inv_b: the refutations use clause-specific boolean consequences (need_listed, need_flag, ...);
+(3) I2 is stated as its own theorem, not as a conjunct of InvP.
+Not in the model at all (oracle-only stream): slices (setitem/delitem), list.sort, initializers.popitem/update/
+setdefault/|=, Graph.sort, register_initializer, convenience.replace_all_uses_with / rename_values /
+replace_nodes_and_values.  Function forwards are exercised by routing modelled calls through ir.Function objects.
+
+TIE, measured (quick, seed 0): ~330 random histories (length 5-60, 1-3 graphs, nested subgraph attributes, <= 9 nodes,
+<= 22 values, 30 % malformed calls, 4-15 % aimed at defect sites with the offending element at every position) +
+3540 exhaustive container histories (all sequences of <= 2 ops over a 59-op alphabet on a 2-graph/5-value universe;
+thorough: length 3, 12 % sample) + corpus; ~41 k compared steps, every op kind and every rejection reason occurs
+(evidence: ops / rejections histograms).  After the first op that hits an unrepaired defect site (computed inside
+Coq: `hit`) comparison of that history stops (the state is then outside the domain on which the model is claimed
+faithful; e.g. the `assert value._graph is self._graph` of _maybe_unset_graph is not modelled).
+
+READINGS.  "a node names a graph exactly when that graph's node sequence contains it, once" is checked on iteration,
+len() and reversed().  I7 is read on the public `Value.graph` property (falls back to the producer's graph): a value
+in no collection and without producer reports None; a value with a flag reports a graph.  Exception types are
+compared through common.exn_name.  Initializer keys: "" is never a key (added to I5).
+
+FINDINGS (genuine defects, reproduced on the implementation; proposed_fixes/C01-*.diff repair 10 of them, validated:
+578 tests of _core/_graph_containers/_convenience pass, and the tie run against the patched tree with the model
+switched to the repaired branches (VERIF_C01_FIXED=...) shows zero mismatches): see known_findings.d/C01.json.
+New relative to DESIGN §1: latent ref-count corruption by a rejected extend() that changes nothing visible
+(corpus/C06/latent_extend.json), `graph.inputs *= n` additionally raises AttributeError (no setter) after mutating,
+`initializers |= {...}` untracked, insert_after/insert_before adopt the new nodes before rejecting a reference node
+that is not in the graph.
+
+MUTANTS tried on a scratch worktree (all reported as VIOLATION with a concrete shrunk replay, found by the oracle on
+the generated histories; the correspondence also diverged):
+  M1 replace_input_with without _remove_usage           -> I1 at NReplaceInput/NResizeInputs
+  M2 Graph.remove not clearing node.graph               -> I3
+  M3 GraphInputs._maybe_unset_graph not decrementing    -> I4
+  M4 resize_outputs not clearing _producer              -> I2
+  M5 Value.name setter not re-keying initializers       -> I5
+  M6 _GraphIO.append appending before _set_graph        -> C06 (rejected append keeps the value)
+  M7 resize_inputs shrink loop starting at new_size+1   -> I1
+Unchanged tree: exit 0 for VERIF_SEED 0,1,2,3 (KNOWN-FINDING lines only); quick 15-50 s wall.
+"""
 
 from __future__ import annotations
 
@@ -8,6 +77,8 @@ from harness.props import _core_ops as C
 def run(ck) -> None:
     C.run_check(ck, "c01")
     ck.level = "proof"
+    ck.notes.append("C01_inv_reachable is proved as _partial for I3..I7: Graph(...) WITH arguments is outside in_scope "
+                    "(carried by the correspondence check and the oracle only); I1 and I2 are proved for the whole alphabet")
 
 
 def replay(rp: dict) -> int:
